@@ -97,6 +97,11 @@ func New(options ...Option) (*Compiler, error) {
 			name:    "__main__",
 			symbols: NewSymbolTable(),
 		}
+	} else {
+		// Function IDs are numbered consecutively and must stay unique within
+		// the code tree (saved code is re-linked to its functions by ID):
+		// continue after the functions the supplied code already contains.
+		c.funcIndex = len(c.main.Flatten()) - 1
 	}
 	// Insert any supplied names for globals into the symbol table
 	sort.Strings(c.globalNames)
